@@ -70,14 +70,34 @@ def element_report(residual, elems, rule_pair=('A', 'B'), point_budget=None):
     if point_budget is not None and total * len(elems) > point_budget:
         return 'above_point_budget'
     out = []
-    for e, per in plan:
+    for n_e, (e, per) in enumerate(plan):
         row = []
-        for r in rule_pair:
+        for n_r, r in enumerate(rule_pair):
             T, X, W = per[r]
-            vals = np.asarray(residual(T, X, e.gamma_space), dtype=float)
+            vals = call_in_form(residual, T, X, e.gamma_space, (n_e + n_r) % 4)
             row.extend([float(np.dot(W, vals)), float(np.dot(W, np.abs(vals)))])
         out.append(row)
     return out
+
+
+def call_in_form(residual, T, X, gamma, form):
+    """the residual is a function of the points, not of the way a batch is ordered: the batch is handed over
+    as generated, reversed, in a fixed pseudo-random order with the first point repeated at the end, or in chunks"""
+    n = len(T)
+    if form == 0:
+        return np.asarray(residual(T, X, gamma), dtype=float)
+    if form == 1:
+        return np.asarray(residual(T[::-1].copy(), X[::-1].copy(), gamma), dtype=float)[::-1]
+    if form == 2:
+        perm = np.argsort((np.arange(n) * 2654435761) % 1000003, kind='stable')
+        Tp = np.concatenate([T[perm], T[perm][:1]])
+        Xp = np.concatenate([X[perm], X[perm][:1]])
+        v = np.asarray(residual(Tp, Xp, gamma), dtype=float)[:-1]
+        out = np.empty(n)
+        out[perm] = v
+        return out
+    k = max(1, n // 3)
+    return np.concatenate([np.asarray(residual(T[i:i + k], X[i:i + k], gamma), dtype=float) for i in range(0, n, k)])
 
 
 def judge(rows, tol=5e-5, floor=1e-12):
@@ -86,7 +106,12 @@ def judge(rows, tol=5e-5, floor=1e-12):
     for i, (mA, aA, mB, aB) in enumerate(rows):
         bound = tol * aB + floor
         if abs(mA - mB) > 0.1 * bound:
-            res.append((i, 'inconclusive', abs(mB) / bound))
+            # the two resolutions disagree: quadrature noise when both means are of the size of the bound, but a mean
+            # twenty times the bound at either resolution is not noise (observed noise: 0.25 x bound at most)
+            if max(abs(mA), abs(mB)) > 20 * bound:
+                res.append((i, 'violation', max(abs(mA), abs(mB)) / bound))
+            else:
+                res.append((i, 'inconclusive', abs(mB) / bound))
         elif abs(mB) > bound:
             res.append((i, 'violation', abs(mB) / bound))
         else:
